@@ -322,6 +322,11 @@ impl StreamsState {
             return Ok(ShouldTransmit(false));
         }
 
+        // Like `received_reset`, count the stream as opened by the peer even though the
+        // application has already stopped it; otherwise it is never counted as opened but is
+        // counted as closed once its final size is known, and `remote_open_streams` underflows.
+        self.on_stream_frame(false, id);
+
         // Stopped streams become closed instantly on FIN, so check whether we need to clean up
         if closed {
             let rs = self.recv.remove(&id).flatten().unwrap();
